@@ -218,6 +218,10 @@ func sharedBase(v ssa.Value, seen map[ssa.Value]bool, depth int) string {
 				_ = al
 				return ""
 			}
+			if builtPerCall(base, 0) {
+				// a small state object every caller builds for the call (args := &callArgs{}; args.add(v))
+				return ""
+			}
 			if st, ok := deref(a.X.Type()).Underlying().(*types.Struct); ok && a.Field < st.NumFields() {
 				return fmt.Sprintf("field %s of %s", st.Field(a.Field).Name(), typeStr(deref(a.X.Type())))
 			}
@@ -225,6 +229,85 @@ func sharedBase(v ssa.Value, seen map[ssa.Value]bool, depth int) string {
 		}
 	}
 	return ""
+}
+
+// builtPerCall: v is a parameter (or free variable) that, at every static call site of its function in the package,
+// is bound to an object the caller builds itself (an allocation, or a parameter of the caller that is in turn
+// built per call). Deferred calls count as sites.
+func builtPerCall(v ssa.Value, depth int) bool {
+	if depth > 4 {
+		return false
+	}
+	switch x := v.(type) {
+	case *ssa.Alloc:
+		return true
+	case *ssa.Parameter:
+		fn := x.Parent()
+		idx := -1
+		for i, q := range fn.Params {
+			if q == x {
+				idx = i
+			}
+		}
+		if idx < 0 || pkgOf(fn) == nil {
+			return false
+		}
+		// a method of the evaluator, the function object, a template or a context: the receiver lives on
+		n := 0
+		for _, g := range functionsOf(pkgOf(fn)) {
+			for _, b := range g.Blocks {
+				for _, ins := range b.Instrs {
+					ci, ok := ins.(ssa.CallInstruction)
+					if !ok || ci.Common().StaticCallee() != fn {
+						continue
+					}
+					n++
+					if idx >= len(ci.Common().Args) || !builtPerCall(ci.Common().Args[idx], depth+1) {
+						return false
+					}
+				}
+			}
+		}
+		// (a method value or an interface call could reach it too: only unexported functions are judged this way)
+		return n > 0 && fnObject(fn) != nil && !fnObject(fn).Exported()
+	case *ssa.FreeVar:
+		// the captured variable of a closure: what the enclosing function binds
+		fn := x.Parent()
+		idx := -1
+		for i, q := range fn.FreeVars {
+			if q == x {
+				idx = i
+			}
+		}
+		if idx < 0 || fn.Parent() == nil {
+			return false
+		}
+		for _, b := range fn.Parent().Blocks {
+			for _, ins := range b.Instrs {
+				if mc, ok := ins.(*ssa.MakeClosure); ok && mc.Fn == ssa.Value(fn) && idx < len(mc.Bindings) {
+					return builtPerCall(mc.Bindings[idx], depth+1)
+				}
+			}
+		}
+	case *ssa.UnOp:
+		if x.Op == token.MUL {
+			// a pointer kept in a local cell
+			if al, ok := x.X.(*ssa.Alloc); ok && al.Referrers() != nil {
+				n := 0
+				for _, ref := range *al.Referrers() {
+					if st, ok := ref.(*ssa.Store); ok && st.Addr == ssa.Value(al) {
+						n++
+						if !builtPerCall(st.Val, depth+1) {
+							return false
+						}
+					}
+				}
+				return n > 0
+			}
+			return builtPerCall(x.X, depth+1)
+		}
+	}
+	return false
 }
 
 // activationBuffersRule: in the functions selected by pick, (1) the vector handed to reflect.Value.Call /
